@@ -63,8 +63,8 @@ fn run_scenario(sc: &Scenario, do_c01: bool, do_c16: bool) -> CaseResult {
     let mut dedup: HashMap<Vec<u8>, u32> = HashMap::new();
     let mut abs = AbsState::default();
     let mut decided = true;
+    let mut diverged: Option<String> = None;
     let mut placement: Vec<Option<(u32, usize)>> = vec![];
-    res.states.push(abs.key());
     for it in &items {
         let bytes = it.bytes();
         let dup = if sc.cached { dedup.get(&bytes).copied() } else { None };
@@ -72,7 +72,6 @@ fn run_scenario(sc: &Scenario, do_c01: bool, do_c16: bool) -> CaseResult {
             Some(idx) => {
                 expect_addr.push((1, idx));
                 first_occurrence.push(false);
-                placement.push(None);
             }
             None => {
                 let idx = model_contents.len() as u32;
@@ -81,24 +80,9 @@ fn run_scenario(sc: &Scenario, do_c01: bool, do_c16: bool) -> CaseResult {
                 }
                 expect_addr.push((1, idx));
                 first_occurrence.push(true);
-                let before = abs.key();
-                match model_compress(sc.comp, it, &bytes) {
-                    Some(c) if decided => {
-                        placement.push(Some(abs.add(bytes.len() as u64, c)));
-                        res.transitions.push(format!("{before} --add({},{})--> {}", bytes.len(), c, abs.key()));
-                        res.states.push(abs.key());
-                    }
-                    _ => {
-                        decided = false;
-                        placement.push(None);
-                    }
-                }
                 model_contents.push(bytes);
             }
         }
-    }
-    if decided {
-        abs.finalize();
     }
     // ---- the real creator
     let created = match create(sc, dir.path()) {
@@ -112,43 +96,95 @@ fn run_scenario(sc: &Scenario, do_c01: bool, do_c16: bool) -> CaseResult {
             return res;
         }
     };
-    // conformance of the abstract model with the implementation (Progress callbacks)
+    let file = match std::fs::read(match sc.packaging {
+        Packaging::TwoFiles | Packaging::NoConcat => created.path.with_extension("jbkc"),
+        _ => created.path.clone(),
+    }) {
+        Ok(f) => f,
+        Err(e) => {
+            res.violations.push((format!("{prop} output file unreadable"), format!("{e}")));
+            return res;
+        }
+    };
+    let located = indep::packs_in_file(&file).and_then(|packs| {
+        packs
+            .into_iter()
+            .find(|p| p.head.kind == b'c')
+            .ok_or_else(|| "no content pack in the file".to_string())
+    });
+    let decoded = located.and_then(|l| indep::content_pack(&file, l.offset));
+    // ---- the abstract creator model. Which slot a content goes to is dictated by the property
+    // for explicit hints (and for packs without compression); for CompHint::Detect the property
+    // leaves it open, so the model takes the decision the implementation made (read from the
+    // bytes by the independent decoder) and only checks the cluster structure that follows from it
+    let mut decisions: Vec<Option<bool>> = vec![];
+    for (k, it) in items.iter().enumerate() {
+        if !first_occurrence[k] {
+            decisions.push(None);
+            continue;
+        }
+        let d = if sc.comp == Comp::None {
+            Some(false)
+        } else {
+            match it.hint {
+                Hint::Yes => Some(true),
+                Hint::No => Some(false),
+                Hint::Detect => match &decoded {
+                    Ok(map) if map.content_count == model_contents.len() => {
+                        let (cl, _) = map.contents[expect_addr[k].1 as usize];
+                        Some(map.clusters[cl].compression != 0)
+                    }
+                    _ => None,
+                },
+            }
+        };
+        if d.is_none() {
+            decided = false;
+        }
+        decisions.push(d);
+    }
+    res.states.push(abs.key());
+    let mut model_new: Vec<(u32, bool)> = vec![];
     if decided {
-        let mut model_new: Vec<(u32, bool)> = vec![];
-        {
-            let mut a = AbsState::default();
-            let mut seen = BTreeSet::new();
-            for (k, it) in items.iter().enumerate() {
-                if !first_occurrence[k] {
-                    continue;
+        let mut seen = BTreeSet::new();
+        for (k, it) in items.iter().enumerate() {
+            match decisions[k] {
+                Some(c) if first_occurrence[k] => {
+                    let before = abs.key();
+                    let len = it.len as u64;
+                    let (cl, blob) = abs.add(len, c);
+                    if seen.insert(cl) {
+                        model_new.push((cl, c));
+                    }
+                    placement.push(Some((cl, blob)));
+                    res.transitions.push(format!("{before} --add({},{})--> {}", len, c, abs.key()));
+                    res.states.push(abs.key());
                 }
-                let bytes = it.bytes();
-                let c = model_compress(sc.comp, it, &bytes).unwrap();
-                let (cl, _) = a.add(bytes.len() as u64, c);
-                if seen.insert(cl) {
-                    model_new.push((cl, c));
-                }
+                _ => placement.push(None),
             }
         }
+        abs.finalize();
+    }
+    // conformance of the abstract model with the implementation (Progress callbacks)
+    if decided {
         if model_new != created.new_clusters {
-            res.outcome = "model-divergence".into();
-            res.violations.push((
-                "MACHINERY model/implementation divergence (clusters opened)".into(),
-                format!("model opens {:?}, implementation opened {:?}", model_new, created.new_clusters),
-            ));
-            return res;
+            // the property's own oracles run first: a placement that contradicts an explicit hint
+            // is a violation, not a modelling problem; only a divergence they cannot explain is
+            // reported as machinery (see the end of this function)
+            diverged = Some(format!("model opens {:?}, implementation opened {:?}", model_new, created.new_clusters));
+            decided = false;
         }
         let mut w = created.written.clone();
         w.sort();
         let mut m: Vec<u32> = abs.closed.iter().map(|c| c.0).collect();
         m.sort();
-        if w != m {
+        if w != m && diverged.is_none() {
             res.violations.push((
                 format!("{prop} clusters written differ from the model"),
                 format!("model closes {:?}, implementation wrote {:?}", m, w),
             ));
         }
-        res.conformed = true;
+        res.conformed = diverged.is_none();
         res.stats.clusters = abs.closed.len();
         res.stats.multi = abs.closed.len() >= 2;
         res.stats.mixed = abs.closed.iter().any(|c| c.1) && abs.closed.iter().any(|c| !c.1);
@@ -161,16 +197,6 @@ fn run_scenario(sc: &Scenario, do_c01: bool, do_c16: bool) -> CaseResult {
             format!("insertion #{k} returned {:?}, the model says {:?}", created.addrs.get(k), expect_addr[k]),
         ));
     }
-    let file = match std::fs::read(match sc.packaging {
-        Packaging::TwoFiles | Packaging::NoConcat => created.path.with_extension("jbkc"),
-        _ => created.path.clone(),
-    }) {
-        Ok(f) => f,
-        Err(e) => {
-            res.violations.push((format!("{prop} output file unreadable"), format!("{e}")));
-            return res;
-        }
-    };
     if do_c01 {
         let r = jbkmc::catch(|| -> Vec<(String, String)> {
             let mut v = vec![];
@@ -234,13 +260,7 @@ fn run_scenario(sc: &Scenario, do_c01: bool, do_c16: bool) -> CaseResult {
         }
     }
     // ---- the bytes, through the independent decoder
-    let located = indep::packs_in_file(&file).and_then(|packs| {
-        packs
-            .into_iter()
-            .find(|p| p.head.kind == b'c')
-            .ok_or_else(|| "no content pack in the file".to_string())
-    });
-    match located.and_then(|l| indep::content_pack(&file, l.offset)) {
+    match decoded {
         Err(e) => res.violations.push((format!("{prop} independent decoder rejects the pack: {}", e.split(':').next().unwrap_or("")), e)),
         Ok(map) => {
             for c in &map.clusters {
@@ -315,6 +335,13 @@ fn run_scenario(sc: &Scenario, do_c01: bool, do_c16: bool) -> CaseResult {
         }
     }
     res.nontrivial = !items.is_empty();
+    if let Some(d) = diverged {
+        if res.violations.is_empty() {
+            res.outcome = "model-divergence".into();
+            res.violations.push(("MACHINERY model/implementation divergence (clusters opened)".into(), d));
+            return res;
+        }
+    }
     if !res.violations.is_empty() {
         res.outcome = "violation".into();
     } else if !decided {
@@ -576,7 +603,7 @@ fn c16(args: &Args) -> ! {
     let mut rep = Report::new(
         "seqmc",
         "C16",
-        "every sequence of length <=3 (quick) / <=4 (thorough) over {A low entropy, B high entropy, A again, empty} x hint {Yes,No,Detect} for every compression {none,lz4,lzma,zstd} x adder {direct,cached} x packaging {bare, one-file}; the produced bytes are decoded by the independent decoder (own CRC, codec crates) and each content's cluster compression, verbatim bytes / decompressed bytes, address sharing and content count are compared with the property; non-trivial = at least one content with hint Yes or No",
+        "every sequence of length <=3 (quick) / <=4 (thorough) over {A low entropy, B high entropy, A again, empty} x hint {Yes,No,Detect} for every compression {none,lz4,lzma,zstd} x adder {direct,cached} x packaging {bare, one-file}; the produced bytes are decoded by the independent decoder (own CRC, codec crates) and each content's cluster compression, verbatim bytes / decompressed bytes, address sharing and content count are compared with the property; plus non-initial states (clusters 0..1 blobs short of the 4095-blob limit, raw and/or compressed) followed by every sequence of length <=2 over {A, empty} x {Yes, No}; non-trivial = at least one content with hint Yes or No",
     );
     let mut acc = Acc { states: BTreeSet::new(), transitions: BTreeSet::new(), conformed: 0, multi: 0, mixed: 0, widths: BTreeSet::new() };
     if let Some(p) = &args.replay {
@@ -634,6 +661,37 @@ fn c16(args: &Args) -> ! {
     }
     if let Some(n) = args.opt("--limit") {
         scs.truncate(n.parse().unwrap());
+    }
+    // non-initial states: clusters one or two blobs short of the 4095-blob limit, then every
+    // sequence of length <=2 over {A, empty} x {Yes, No}: the cluster that closes because it is
+    // full must keep its kind (a full raw cluster stays raw, a full compressed one is compressed)
+    {
+        let mut pres = vec![
+            Pre { raw_blobs: 4095, comp_blobs: 0, comp_bytes: 0, raw_bytes: 0 },
+            Pre { raw_blobs: 0, comp_blobs: 4095, comp_bytes: 0, raw_bytes: 0 },
+            Pre { raw_blobs: 4094, comp_blobs: 4094, comp_bytes: 0, raw_bytes: 0 },
+        ];
+        if t {
+            pres.push(Pre { raw_blobs: 4094, comp_blobs: 0, comp_bytes: 0, raw_bytes: 0 });
+            pres.push(Pre { raw_blobs: 0, comp_blobs: 4094, comp_bytes: 0, raw_bytes: 0 });
+            pres.push(Pre { raw_blobs: 4095, comp_blobs: 4095, comp_bytes: 0, raw_bytes: 0 });
+            pres.push(Pre { raw_blobs: 8190, comp_blobs: 0, comp_bytes: 0, raw_bytes: 0 });
+        }
+        let follow = |k: usize| -> Item {
+            let (l, e, tag) = if k / 2 == 0 { (3000, Entropy::Low, 1) } else { (0, Entropy::Low, 3) };
+            Item { len: l, entropy: e, hint: if k % 2 == 0 { Hint::Yes } else { Hint::No }, src: Src::Memory, tag }
+        };
+        let comps: Vec<Comp> = if t { vec![Comp::None, Comp::Lz4(3), Comp::Lzma(1), Comp::Zstd(5)] } else { vec![Comp::Lz4(3), Comp::Zstd(5)] };
+        for comp in comps {
+            for pre in &pres {
+                for len in 1..=2 {
+                    for seq in sequences(4, len) {
+                        let items: Vec<Item> = seq.iter().map(|&k| follow(k)).collect();
+                        scs.push(Scenario { comp, cached: false, packaging: Packaging::Bare, pre: pre.clone(), items });
+                    }
+                }
+            }
+        }
     }
     // the deduplicating adder's two paths: contents below / at the 4 MiB limit (buffered vs streamed)
     for comp in [Comp::None, Comp::Zstd(5), Comp::Lz4(3)] {
